@@ -41,9 +41,10 @@ theorem u64_ofNat_mod (v : UInt64) : UInt64.ofNat (v.toNat % 256 ^ 8) = v := by
 @[simp] theorem W.pure_out (a : α) (r : Bytes) : (W.pure a r).out = .ok (a, r) := rfl
 @[simp] theorem W.fail_out (e : Err) : (W.fail e : W α).out = .error e := rfl
 @[simp] theorem W.emit_out (ev : Event) (k : W α) : (W.emit ev k).out = k.out := rfl
-@[simp] theorem W.pure_log (a : α) (r : Bytes) : (W.pure a r).log = [] := rfl
-@[simp] theorem W.fail_log (e : Err) : (W.fail e : W α).log = [] := rfl
-@[simp] theorem W.emit_log (ev : Event) (k : W α) : (W.emit ev k).log = ev :: k.log := rfl
+@[simp] theorem W.pure_log (a : α) (r : Bytes) : (W.pure a r).log.toList = [] := rfl
+@[simp] theorem W.fail_log (e : Err) : (W.fail e : W α).log.toList = [] := rfl
+@[simp] theorem W.emit_log (ev : Event) (k : W α) :
+    (W.emit ev k).log.toList = ev :: k.log.toList := rfl
 
 theorem W.bind_out_ok {x : W α} {f : α → Bytes → W β} {a : α} {r : Bytes}
     (h : x.out = .ok (a, r)) : (x.bind f).out = (f a r).out := by
@@ -54,8 +55,8 @@ theorem W.bind_out_error {x : W α} {f : α → Bytes → W β} {e : Err}
   simp [W.bind, h]
 
 theorem W.bind_log_ok {x : W α} {f : α → Bytes → W β} {a : α} {r : Bytes}
-    (h : x.out = .ok (a, r)) : (x.bind f).log = x.log ++ (f a r).log := by
-  simp [W.bind, h]
+    (h : x.out = .ok (a, r)) : (x.bind f).log.toList = x.log.toList ++ (f a r).log.toList := by
+  simp [W.bind, h, Log.toList]
 
 theorem W.bind_log_error {x : W α} {f : α → Bytes → W β} {e : Err}
     (h : x.out = .error e) : (x.bind f).log = x.log := by
@@ -63,9 +64,23 @@ theorem W.bind_log_error {x : W α} {f : α → Bytes → W β} {e : Err}
 
 /-! ## reading back what the encoder wrote -/
 
+theorem splitAt?_eq : ∀ (n : Nat) (bs : Bytes),
+    splitAt? n bs = if n ≤ bs.length then some (bs.take n, bs.drop n) else none
+  | 0, bs => by simp [splitAt?]
+  | n + 1, [] => by simp [splitAt?]
+  | n + 1, b :: bs => by
+    simp only [splitAt?, splitAt?_eq n bs, List.length_cons, Nat.add_le_add_iff_right]
+    by_cases h : n ≤ bs.length <;> simp [h]
+
+theorem readBytes_eq (n : Nat) (bs : Bytes) :
+    readBytes n bs = if n ≤ bs.length then W.pure (bs.take n) (bs.drop n) else W.fail .truncated := by
+  unfold readBytes
+  rw [splitAt?_eq]
+  by_cases h : n ≤ bs.length <;> simp [h]
+
 theorem readBytes_append (x rest : Bytes) :
     (readBytes x.length (x ++ rest)).out = .ok (x, rest) := by
-  simp [readBytes]
+  simp [readBytes_eq]
 
 theorem readU8_cons (b : UInt8) (rest : Bytes) : (readU8 (b :: rest)).out = .ok (b, rest) := rfl
 
@@ -418,7 +433,8 @@ theorem encodeSnapshot_ok_iff (s : Snapshot) :
 /-- `Inv B n w`: every ghost event of `w` is fine for an input of `B` bytes, `w` leaves at most
 `n` bytes unread, and `w` did not run out of fuel. -/
 def Inv (B n : Nat) (w : W α) : Prop :=
-  (∀ e ∈ w.log, Event.Ok B e) ∧ (∀ a r, w.out = .ok (a, r) → r.length ≤ n) ∧ w.out ≠ .error .fuel
+  (∀ e ∈ w.log.toList, Event.Ok B e) ∧ (∀ a r, w.out = .ok (a, r) → r.length ≤ n) ∧
+    w.out ≠ .error .fuel
 
 theorem inv_pure {B n : Nat} (a : α) {r : Bytes} (h : r.length ≤ n) : Inv B n (W.pure a r) := by
   refine ⟨by simp, ?_, by simp⟩
@@ -462,7 +478,7 @@ theorem inv_bind {B n : Nat} {x : W α} {f : α → Bytes → W β} (hx : Inv B 
 
 theorem inv_readBytes {B n : Nat} (k : Nat) {bs : Bytes} (h : bs.length ≤ n) :
     Inv B n (readBytes k bs) := by
-  unfold readBytes
+  rw [readBytes_eq]
   split
   · exact inv_pure _ (by simp; omega)
   · exact inv_fail (by decide)
